@@ -1432,7 +1432,9 @@ theorem processEvent_adds (h : Hooks) (htr : HooksTraceOK h) (fl : Flavor) (m : 
     · exact Adds.refl _ _
     · split
       · exact Adds.refl _ _
-      · exact execute_adds h htr fl m ev _ s
+      · split
+        · exact Adds.refl _ _
+        · exact execute_adds h htr fl m ev _ s
 
 /-- every plan's exit list is deepest-first: whatever the transition (history targets included) -/
 theorem planTransition_exits_sorted (m : Machine) (cfg : List Path) (hist : List (Path × List Path)) (c : Cand) :
@@ -1560,6 +1562,7 @@ theorem plain_untouched (h : Hooks) (hok : HooksOK h) (fl : Flavor) (m : Machine
 /-- one step of `processEvent`'s fold (`multi`: several transitions were selected, so stale ones are skipped) -/
 def stepEv (h : Hooks) (fl : Flavor) (m : Machine) (ev : Ev) (multi : Bool) (s : St) (c : Cand) : St :=
   if s.err.isSome then s
+  else if finished s.status then s
   else if multi && !(s.cfg.contains c.src) then s
   else execute h fl m ev (planTransition m s.cfg s.hist c) s
 
@@ -1576,6 +1579,8 @@ def evNet (h : Hooks) (fl : Flavor) (m : Machine) (ev : Ev) (multi : Bool) : Lis
   | [], _, _ => 0
   | c :: cs, s, q =>
     if s.err.isSome then 0
+    -- the machine has completed: the remaining selected transitions do not fire (`break`)
+    else if finished s.status then 0
     else if multi && !(s.cfg.contains c.src) then evNet h fl m ev multi cs s q
     else
       (((planTransition m s.cfg s.hist c).entries.map (·.path)).count q : Int)
@@ -1641,18 +1646,29 @@ theorem event_accounting_fold (h : Hooks) (hok : HooksOK h) (fl : Flavor) (m : M
       cases cs with
       | nil => rfl
       | cons _ _ => simp at this
+    by_cases hfin : finished s'.status = true
+    · have hstep : ∀ c, stepEv h fl m ev multi s' c = s' := by
+        intro c; unfold stepEv; simp only [hfin, if_true]; split <;> rfl
+      have hfold : ∀ (l : List Cand), l.foldl (stepEv h fl m ev multi) s' = s' := by
+        intro l
+        induction l with
+        | nil => rfl
+        | cons a l ihl => rw [List.foldl_cons, hstep a]; exact ihl
+      rw [hstep c, hfold cs]
+      simp only [evNet, hs'err, Option.isSome_none, Bool.false_eq_true, if_false, hfin, if_true]
+      omega
     by_cases hstale : (multi && !(s'.cfg.contains c.src)) = true
     · have hfc : stepEv h fl m ev multi s' c = s' := by
-        unfold stepEv; simp only [hs'err, Option.isSome_none, Bool.false_eq_true, if_false, hstale, if_true]
+        unfold stepEv; simp only [hs'err, Option.isSome_none, Bool.false_eq_true, if_false, hfin, hstale, if_true]
       have hm : multi = true := by
         cases multi <;> simp at hstale ⊢
       rw [hfc] at hre ⊢
-      simp only [evNet, hs'err, Option.isSome_none, Bool.false_eq_true, if_false, hstale, if_true]
+      simp only [evNet, hs'err, Option.isSome_none, Bool.false_eq_true, if_false, hfin, hstale, if_true]
       exact ih s' hl hn (fun c' hc' => hok' c' (List.mem_cons_of_mem _ hc'))
         (fun c' _ hf' => by rw [hm] at hf'; exact absurd hf' (by simp))
         (fun hf' => by rw [hm] at hf'; exact absurd hf' (by simp)) hre
     · have hfc : stepEv h fl m ev multi s' c = execute h fl m ev (planTransition m s'.cfg s'.hist c) s' := by
-        unfold stepEv; simp only [hs'err, Option.isSome_none, Bool.false_eq_true, if_false, hstale]
+        unfold stepEv; simp only [hs'err, Option.isSome_none, Bool.false_eq_true, if_false, hfin, hstale]
       have hmem : c.src ∈ s'.cfg := by
         cases hm : multi with
         | false => exact hsrc c (by simp) hm
@@ -1673,7 +1689,7 @@ theorem event_accounting_fold (h : Hooks) (hok : HooksOK h) (fl : Flavor) (m : M
       have hacc := cand_accounting h hok fl m ev c s' hwf hi (hok' c (by simp)) hst hn hexe q
       have hstep := legal_microstep h hok fl m ev c s' hwf hi hl (Or.inl (hok' c (by simp))) hmem
       have hnstep := execute_nodup h hok fl m ev (planTransition m s'.cfg s'.hist c) s' hn
-      simp only [evNet, hs'err, Option.isSome_none, Bool.false_eq_true, if_false, hstale]
+      simp only [evNet, hs'err, Option.isSome_none, Bool.false_eq_true, if_false, hfin, hstale]
       have hrest := ih _ hstep hnstep (fun c' hc' => hok' c' (List.mem_cons_of_mem _ hc'))
         (fun c' hc' hm => by rw [htail hm] at hc'; simp at hc')
         (fun hm => by rw [htail hm]; simp) hre
